@@ -21,6 +21,7 @@ open Lungo.C14
 #print axioms Lungo.C14.slice_no_overflow
 #print axioms Lungo.C14.slice_argument_is_int64
 #print axioms Lungo.C14.slice_project_toplevel
+#print axioms Lungo.C14.elemMatch_eligibility
 #print axioms Lungo.C14.elemMatch_first
 #print axioms Lungo.C14.elemMatch_none
 #print axioms Lungo.C14.elemMatch_error
